@@ -76,7 +76,49 @@ def rows_alpha(rows):
     return [[float(a) for a in r] for r, _ in rows]
 
 
+def oracle_rounded_duplicates(rng):
+    """exponent vectors that differ in floating point but agree to 7 decimals (0.1 + 0.2 against 0.3) denote ONE term; whatever the constructor does
+    with them, every derivative of the Signomial/Polynomial (symbolic and numeric) is the derivative of the function the INPUT rows describe"""
+    from sageopt.symbolic.signomials import Signomial
+    for trial in range(6):
+        a1 = 0.1 + 0.2
+        b1 = float(rng.choice([1, 2, -1]))
+        rows = [[a1, b1], [0.3, b1], [1.0, 0.0], [0.7 + 0.1, 0.5], [0.8, 0.5]]
+        cs = [1.0, 2.0, -1.0, float(rng.choice([1, 3])), float(rng.choice([-2, 2]))]
+        builders = [('constructor', lambda: Signomial(np.array(rows), np.array(cs)))]
+        if len({tuple(r) for r in rows}) == len(rows):
+            builders.append(('from_dict', lambda: Signomial.from_dict({tuple(r): c for r, c in zip(rows, cs)})))
+        for how, build in builders:
+            f = build()
+            x = np.array([rng.randint(-2, 2) / 2.0, rng.randint(-2, 2) / 2.0])
+            A, C = np.array(rows), np.array(cs)
+            ex = np.exp(A @ x)
+            want_f = float(C @ ex)
+            want_g = [float((C * A[:, i]) @ ex) for i in range(2)]
+            want_h = [[float((C * A[:, i] * A[:, k]) @ ex) for k in range(2)] for i in range(2)]
+            tol = 1e-6 * (1 + float(np.abs(C) @ ex) * 4)
+            if abs(float(f(x)) - want_f) > tol:
+                return '%s with rows equal after rounding: f(x) = %r, the input rows give %r' % (how, float(f(x)), want_f)
+            gv, hv = f.grad_val(x), f.hess_val(x)
+            for i in range(2):
+                got = float(f.grad[i](x))
+                if abs(got - want_g[i]) > tol or abs(float(gv[i]) - want_g[i]) > tol:
+                    return ('Signomial built by the %s from rows %s (two pairs agree to 7 decimals) with c = %s: d/dx%d at %s is %r symbolically and %r by grad_val; the '
+                            'function the rows describe has %r' % (how, rows, cs, i, x.tolist(), got, float(gv[i]), want_g[i]))
+                for k in range(2):
+                    got = float(f.hess[i, k](x))
+                    if abs(got - want_h[i][k]) > tol or abs(float(hv[i, k]) - want_h[i][k]) > tol:
+                        return ('Signomial built by the %s from rows %s with c = %s: d2/dx%d dx%d at %s is %r symbolically and %r by hess_val; the function '
+                                'the rows describe has %r' % (how, rows, cs, i, k, x.tolist(), got, float(hv[i, k]), want_h[i][k]))
+    return None
+
+
 def run(ctx):
+    why = oracle_rounded_duplicates(ctx.rng)
+    ctx.suites['rounded_duplicate_rows'] = {'cases': 6, 'failure': why}
+    ctx.evaluations += 6
+    if why:
+        ctx.problem('oracle', 'property fails on the implementation: ' + why, inputs={'suite': 'rounded_duplicate_rows'}, failing_input_found=True)
     part, ppart, shifts, gvals, comp, conv = [], [], [], [], [], []
     N = ctx.n(250, 2500)
     for _ in range(N):
